@@ -1,7 +1,6 @@
 use std::{cmp, collections::HashMap, fs::File, io, path::Path};
 
 use noodles_core::Position;
-use noodles_fasta as fasta;
 use noodles_sam as sam;
 
 use crate::{
@@ -133,8 +132,9 @@ fn push_index_records_for_multi_reference_slice(
 
     let (core_data_src, external_data_srcs) = slice.decode_blocks()?;
 
-    for record in slice.records(
-        fasta::Repository::default(), // TODO
+    // Only the alignment start and end of each record are needed, which do not depend on the
+    // reference sequence.
+    for record in slice.read_records(
         header,
         compression_header,
         &core_data_src,
